@@ -411,6 +411,9 @@ func execHistCase(c *Sx, env *execEnv) (*Sx, []Violation) {
 					case ferr2 == nil && cerr == nil:
 						if cs.Contains(port, proto) != fans {
 							rep("C03", "eval-differs-from-list", fmt.Sprintf("%s: eval=%v, connection set between the peers is %s", op.String(), fans, cs.String()), step)
+						} else if err == nil && cs.Contains(port, proto) != ans {
+							// the engine of the history itself: its answer must be the one the report of the same resources holds
+							rep("C03", "eval-differs-from-list", fmt.Sprintf("step %d %s: the engine answers %v after its history, the connection set between the peers (same objects) is %s", step, op.String(), ans, cs.String()), step)
 						} else {
 							env.count("c03-compared")
 						}
@@ -589,6 +592,37 @@ func genHistCase(r *Rng, id int, tier string) *Sx {
 			queries = append(queries, q)
 			c.Add(q)
 			add(Obj{Kind: "ns", Ns: &NsObj{Name: a.ns, Labels: Pick(r, [][]KV{{}, {{"env", "y"}}, {{"team", "y"}, {"env", "y"}}, {{"team", "x"}, {"env", "y"}, {"extra", "z"}}})}})
+			c.Add(q)
+		}
+	}
+	// scenario: a pod without an owner comes back with other labels between two equal questions - the policy that selected it
+	// no longer does (or the other way round), the answer must follow the labels the pod has now
+	if r.P(15) {
+		a, b := Pick(r, pods), Pick(r, pods)
+		if a.name != b.name {
+			b.owner = ""
+			sel := []KV{{lblKeys[0], lblVals[0]}}
+			other := []KV{{lblKeys[0], lblVals[1]}}
+			np := &NetPol{NS: b.ns, Name: "nplone", PodSel: Sel{ML: sel}, Types: []string{"I", "E"}}
+			for _, ns := range nss {
+				add(nsObj(ns))
+			}
+			first, second := sel, other
+			if r.P(40) {
+				first, second = other, sel
+			}
+			b.labels = first
+			add(podObj(a))
+			add(podObj(b))
+			add(Obj{Kind: "np", Np: np})
+			q := Ls(At("q"), At(a.ns+"/"+a.name), At(b.ns+"/"+b.name), At("TCP"), At("80"))
+			if r.P(40) {
+				q = Ls(At("q"), At(b.ns+"/"+b.name), At(a.ns+"/"+a.name), At("TCP"), At("80"))
+			}
+			queries = append(queries, q)
+			c.Add(q)
+			b.labels = second
+			add(podObj(b))
 			c.Add(q)
 		}
 	}
